@@ -144,7 +144,7 @@ def driver_factory(cfg):
                         # an unsolicited primary arrives before the reply
                         ep.conn.peer_send(unsol_frame(unsol_sent))
                         unsol_sent += 1
-                    c = s.choose(4, "env")
+                    c = s.choose(5 if cfg.get("second_round") else 4, "env")
                     rep = e37.data(1, 4, False, f["system"], reply_body(ident if ident is not None else 0))
                     if c == 0:
                         ep.conn.peer_send(rep)
@@ -156,7 +156,10 @@ def driver_factory(cfg):
                     elif c == 1:
                         deferred.append((f["system"], rep))
                     elif c == 2:
-                        late.append((f["system"], rep, f["t"]))
+                        late.append((f["system"], rep, f["t"], 1.0, "late"))
+                    elif c == 4:
+                        # written at the very instant the caller's T3 runs out: the caller may get it or time out, nothing else may change
+                        late.append((f["system"], rep, f["t"], 0.0, "at-deadline"))
                     else:
                         obs.setdefault("never", []).append(f["system"])
                     handled += 1
@@ -168,10 +171,10 @@ def driver_factory(cfg):
             while unsol_sent < nunsol:
                 ep.conn.peer_send(unsol_frame(unsol_sent))
                 unsol_sent += 1
-            for sysb, rep, t in late:
-                vrt.vtime.sleep(max(0.0, t + T3 + 1.0 - s.clock))
+            for sysb, rep, t, extra, label in sorted(late, key=lambda x: x[2] + x[3]):
+                vrt.vtime.sleep(max(0.0, t + T3 + extra - s.clock))
                 ep.conn.peer_send(rep)
-                obs.setdefault("replied", []).append((sysb, "late", s.clock))
+                obs.setdefault("replied", []).append((sysb, label, s.clock))
 
         pt = vrt.Thread(target=peer, name="peer")
         for t in threads:
@@ -182,6 +185,20 @@ def driver_factory(cfg):
         pt.join()
         s.settle()
         ep.pump()
+        if cfg.get("second_round"):
+            # every transaction of the first round is over; one more request, answered at once: it gets its own reply, whatever the
+            # first round left behind
+            n = ncallers
+            t2 = vrt.Thread(target=caller, args=(n,), name=f"caller-{n}")
+            t2.start()
+            s.block(lambda: len(ep.conn.sent) > ep._sent_seen or n in done, None, "second-round-wait")
+            for f in [f for f in ep.pump() if f["stype"] == 0 and f["w"]]:
+                obs["wire_requests"].append({"system": f["system"], "ident": 100 + n, "t": f["t"], "step": s.steps, "round": 2})
+                ep.conn.peer_send(e37.data(1, 4, False, f["system"], reply_body(100 + n)))
+                obs.setdefault("replied", []).append((f["system"], "now", s.clock))
+            t2.join()
+            s.settle()
+            ep.pump()
         ep.conn.send_fault_menu = False
         obs["failed_sends"] = len(ep.conn.failed_sends)
         # every transaction of this side is over (answered, or timed out): the peer's own transaction counter is independent, so it may
@@ -320,7 +337,7 @@ def oracle(obs, cfg, sched):
     if len(set(systems)) != len(systems):
         out.append(("C06|duplicate-system-bytes-among-outstanding-requests", {"requests": reqs}))
     replied = {sysb: (how, t) for sysb, how, t in obs.get("replied", [])}
-    for i in range(ncallers):
+    for i in range(ncallers + (1 if cfg.get("second_round") else 0)):
         c = callers.get(i)
         if c is None or "end" not in c:
             out.append((f"C06|caller-did-not-return|outcome={sched.outcome}", {"caller": i}))
@@ -338,6 +355,8 @@ def oracle(obs, cfg, sched):
         # instant of the time-out, is causally after it)
         in_time = how is not None and how[0] != "late" and how[1] < mine[0]["t"] + T3 - 1e-9
         dup_sys = systems.count(sysb) > 1
+        if how is not None and how[0] == "at-deadline" and (res is None or (res["body"] == reply_body(100 + i) and res["system"] == sysb)):
+            continue  # written at the instant of the time-out: both outcomes are in order
         if res is None:
             if in_time and not dup_sys:
                 out.append((f"C06|caller-timed-out-although-reply-arrived|{how[0]}", {"caller": i, "system": sysb, "obs_replied": obs.get("replied")}))
@@ -403,8 +422,11 @@ CONFIGS_QUICK = [
     # statement of the line protocol (C17) excludes and which the library does not survive (see DESIGN.md 7.3).
     ({"callers": 2, "unsolicited": 2, "counter": 9, "transport": "secsi"}, {"sched": 0, "env": 2}),
     ({"callers": 3, "unsolicited": 1, "counter": 3, "send_faults": True}, {"sched": 1, "env": 1}),
+    # a reply written at the instant its caller's T3 runs out, then a second round: one more request after everything is over
+    ({"callers": 2, "unsolicited": 0, "counter": 7, "second_round": True}, {"sched": 1, "env": 1}),
 ]
 CONFIGS_THOROUGH = [
+    ({"callers": 2, "unsolicited": 1, "counter": 7, "second_round": True}, {"sched": 2, "env": 2}),
     ({"callers": 2, "unsolicited": 2, "counter": 0}, {"sched": 3, "env": 2}),
     ({"callers": 3, "unsolicited": 2, "counter": 0xFFFFFFFD}, {"sched": 2, "env": 2}),
     ({"callers": 2, "unsolicited": 3, "counter": 5, "reconnect": True}, {"sched": 2, "env": 1}),
